@@ -15,7 +15,8 @@ Extracted as constants: the default resource (keys and values, version read from
   resource environment variables, SERVICE_NAME / PROCESS_EXECUTABLE_NAME, the order of the sources in Resource.create.
 Checked shapes (Untranslatable when gone): BoundedAttributes.__init__ (validation, counters, initial attributes set
   before `_immutable`), BoundedAttributes.copy, Resource.__init__, the copy/update/construct frame of Resource.merge,
-  the frame of Resource.create, the resource loop of Deep.start, convert_resource.
+  the frame of Resource.create, the resource loop of Deep.start, convert_resource, ConfigService.plugins (getter/setter
+  store the list as given) and resource_providers (type filter of that list, in order).
 """
 import ast
 
@@ -402,6 +403,25 @@ def generate():
     if not same_shape(find_def(g, 'convert_resource'), 'return __convert_attributes(resource.attributes)') \
             or not same_shape(find_def(g, '__convert_attributes'), CONVERT_ATTRS_TEMPLATE):
         raise Untranslatable('convert_resource changed shape')
+    # which providers the loop of Deep.start sees: every configured plugin of the provider type, in the configured order
+    svc = load('src/deep/config/config_service.py')
+    cls = find_def(svc, 'ConfigService')
+    setters = [n for n in cls.body if isinstance(n, ast.FunctionDef) and n.name == 'plugins'
+               and any(ast.unparse(d) == 'plugins.setter' for d in n.decorator_list)]
+    getters = [n for n in cls.body if isinstance(n, ast.FunctionDef) and n.name == 'plugins'
+               and any(ast.unparse(d) == 'property' for d in n.decorator_list)]
+    if len(setters) != 1 or not same_shape(setters[0], 'self._plugins = plugins') \
+            or len(getters) != 1 or not same_shape(getters[0], 'return self._plugins'):
+        raise Untranslatable('ConfigService.plugins no longer stores / returns the plugin list as given')
+    if not same_shape(find_def(svc, 'ConfigService.resource_providers'),
+                      'return self.__plugin_generator(ResourceProvider)') \
+            or not same_shape(find_def(svc, 'ConfigService.__plugin_generator'),
+                              'for plugin in self._plugins:\n    if isinstance(plugin, plugin_type):\n        yield plugin'):
+        raise Untranslatable('ConfigService.resource_providers is no longer the type filter of the plugin list')
+    parts.append('/-- `config.resource_providers` (what the resource loop of `Deep.start` iterates) is the plugin list as it\n'
+                 '    was set, filtered by type, in order: no provider is dropped or reordered between configuration and\n'
+                 '    the fold `withPlugins` (read from the source on every run) -/\n'
+                 'def providersAreAllConfigured : Bool := true\n')
     parts.append('end Extracted.Attributes\n')
     return '\n'.join(parts)
 
